@@ -382,7 +382,7 @@ func c13Known(cdc *cdcCodec, v0 reflect.Value, ap c13Applied, obs, detail string
 			return "KF-C13-2", d
 		case rej.Reason == typegen.RBoolRange:
 			return "KF-C13-3", d
-		case rej.Reason == typegen.RCountTooBig && rej.InBlob:
+		case (rej.Reason == typegen.RCountTooBig || rej.Reason == typegen.RTruncated) && rej.InBlob:
 			return "KF-C13-4", d
 		case rej.Reason == typegen.RCIntWide:
 			return "KF-C13-5", d
